@@ -66,12 +66,13 @@ fn check_err(e: &clap::Error, name: &str, fails: &mut Vec<(String, String)>) {
     }
 }
 
-fn real_factory(ty: &str, range: Option<(Bound<i64>, Bound<i64>)>, urange: Option<(Bound<u64>, Bound<u64>)>, raw: &[u8], fails: &mut Vec<(String, String)>) -> String {
+fn real_factory(ty: &str, range: Option<(Bound<i64>, Bound<i64>)>, urange: Option<(Bound<u64>, Bound<u64>)>, raw: &[u8], fails: &mut Vec<(String, String)>, two_step: bool) -> String {
     let (cmd, arg) = built(Arg::new("num").long("num").action(ArgAction::Set));
     let os = OsStr::from_bytes(raw);
     macro_rules! go { ($t:ty) => {{
         let p = clap::value_parser!($t);
-        let p = match range { Some(r) => p.range(r), None => p };
+        // `range` narrows: the same interval may be reached in two steps, lower bound first
+        let p = match range { Some((lo, hi)) if two_step => p.range((lo, Bound::Unbounded)).range((Bound::Unbounded, hi)), Some(r) => p.range(r), None => p };
         res_s(p.parse_ref(&cmd, Some(&arg), os), "--num", fails)
     }}; }
     match ty {
@@ -169,7 +170,9 @@ pub fn run(o: &Opts) -> Report {
                     Some((lo, hi)) => format!("ifacr {} {} {} {}", ty, bound_tok(lo), bound_tok(hi), hex(&c)),
                 };
                 let mut fails = vec![];
-                let got = catch_unwind(AssertUnwindSafe(|| real_factory(ty, *r, None, &c, &mut fails))).unwrap_or_else(|_| "PANIC".into());
+                let two_step = matches!(r, Some((Bound::Included(_), Bound::Included(_)))) && c.len() % 2 == 0;
+                if two_step { rep.count("int_range_narrowed_in_two_steps"); }
+                let got = catch_unwind(AssertUnwindSafe(|| real_factory(ty, *r, None, &c, &mut fails, two_step))).unwrap_or_else(|_| "PANIC".into());
                 // oracle: the independent reading
                 let exp = match big_read(&c, ty != "u64") {
                     _ if std::str::from_utf8(&c).is_err() => "ERR InvalidUtf8".to_string(),
@@ -312,7 +315,7 @@ pub fn run(o: &Opts) -> Report {
     }
     // ---------------- typed access histories on a real ArgMatches
     let tys = ["string", "i64", "bool", "u8"];
-    let ids = ["a", "b", "c", "zz"];
+    let ids = ["a", "b", "c", "d", "zz"];
     let mut pool: Vec<String> = vec![];
     for id in ids { for t in tys { for k in ["g1", "gm", "r1", "rm"] { pool.push(format!("{k}:{}:{t}", hex(id.as_bytes()))); } } for k in ["raw", "has", "clr"] { pool.push(format!("{k}:{}", hex(id.as_bytes()))); } }
     let mut seqs: Vec<Vec<String>> = vec![];
@@ -325,15 +328,18 @@ pub fn run(o: &Opts) -> Report {
         let with_c = ops.len() % 2 == 0;
         let mut argv = vec!["p", "--a", "x", "--b", "5", "--a", "y"];
         if with_c { argv.push("--c"); }
+        // `d`: an i64 option given without a value (`num_args(0..=1)`, no default_missing_value): present, zero values
+        argv.push("--d");
         let cmd = Command::new("p")
+            .arg(Arg::new("d").long("d").value_parser(clap::value_parser!(i64)).num_args(0..=1).action(ArgAction::Set))
             .arg(Arg::new("a").long("a").action(ArgAction::Append))
             .arg(Arg::new("b").long("b").value_parser(clap::value_parser!(i64)).action(ArgAction::Set))
             .arg(Arg::new("c").long("c").action(ArgAction::SetTrue));
         let mut m = cmd.try_get_matches_from(argv).unwrap();
         let order = |m: &clap::ArgMatches| m.ids().map(|i| hex(i.as_str().as_bytes())).collect::<Vec<_>>().join(",");
         let init_order: Vec<String> = m.ids().map(|i| i.as_str().to_string()).collect();
-        let decl = format!("3 61 62 63 {} {}", init_order.len(), init_order.iter().map(|id| match id.as_str() {
-            "a" => "61 string 2 78 79".to_string(), "b" => "62 i64 1 35".to_string(), _ => format!("63 bool 1 {}", hex(if with_c { b"true" } else { b"false" })) }).collect::<Vec<_>>().join(" "));
+        let decl = format!("4 61 62 63 64 {} {}", init_order.len(), init_order.iter().map(|id| match id.as_str() {
+            "a" => "61 string 2 78 79".to_string(), "b" => "62 i64 1 35".to_string(), "d" => "64 i64 0".to_string(), _ => format!("63 bool 1 {}", hex(if with_c { b"true" } else { b"false" })) }).collect::<Vec<_>>().join(" "));
         let req = format!("store {} {}", decl, ops.join(" "));
         let mut outs = vec![];
         let mut nontrivial = false;
@@ -362,6 +368,12 @@ pub fn run(o: &Opts) -> Report {
                 "has" => match m.try_contains_id(&id) { Ok(b) => format!("bool:{}", b01(b)), Err(_) => "err:unknown".into() },
                 _ => match m.try_clear_id(&id) { Ok(b) => format!("bool:{}", b01(b)), Err(_) => "err:unknown".into() },
             };
+            // oracle: typed access with another type than the arg's declared one fails while the arg is present
+            if matches!(parts[0], "g1" | "gm" | "r1" | "rm") {
+                let declared = match id.as_str() { "a" => Some("string"), "b" | "d" => Some("i64"), "c" => Some("bool"), _ => None };
+                let present = before.split(',').any(|x| x == hex(id.as_bytes()));
+                if let Some(dt) = declared { if present && parts[2] != dt && res != "err:downcast" { rep.oracle_fail("wrong-type-access-succeeds", &req, &format!("op {op} on `{id}` (declared {dt}) answered {res}")); } }
+            }
             // oracle: a failing typed access (or any read) leaves the stored values undisturbed
             let is_read = matches!(parts[0], "g1" | "gm" | "raw" | "has");
             if res.starts_with("err:") || is_read || res == "PANIC" {
